@@ -161,6 +161,11 @@ def battery():
         pk.kahypar_to_tree.build_divide(*net, cutoff=3, seed=s))
     B["kahypar.build_agglom"] = lambda net, s: tree_sig(
         pk.kahypar_to_tree.build_agglom(*net, groupsize=3, seed=s))
+    B["kahypar.build_agglom[compress]"] = lambda net, s: tree_sig(
+        pk.kahypar_to_tree.build_agglom(*net, groupsize=3, seed=s,
+                                        compress=4))
+    B["kahypar.build_divide[compress]"] = lambda net, s: tree_sig(
+        pk.kahypar_to_tree.build_divide(*net, cutoff=3, seed=s, compress=4))
     B["tree.slice"] = lambda net, s: tree_sig(
         start_tree(net).slice(target_slices=4, seed=s, temperature=1.0))
     B["tree.slice-noouter"] = lambda net, s: tree_sig(
